@@ -45,6 +45,22 @@ func (v *ReplaceValidator) Validate(p patch.Patch) error {
 		}
 	}
 
+	// a member that is there is a list, and every entry of it is read (and so validated) below
+	for key, n := range map[string]int{
+		document.ReplacePublicKeyProperty: len(doc.PublicKeys()), document.ReplaceServiceProperty: len(doc.Services()),
+	} {
+		if member, ok := doc[key]; ok && member != nil {
+			arr, isArr := member.([]interface{})
+			if !isArr {
+				return fmt.Errorf("'%s' of a replace document must be a list", key)
+			}
+
+			if err := allEntriesRead(n, arr, key, "objects"); err != nil {
+				return err
+			}
+		}
+	}
+
 	if err := validatePublicKeys(doc.PublicKeys()); err != nil {
 		return fmt.Errorf("failed to validate public keys for replace document: %s", err.Error())
 	}
